@@ -1,1 +1,363 @@
-fn main() {}
+//! C09 driver. Runs the parallel extraction interfaces of wow-mpq on the configurations TLC
+//! generated, next to a sequential `Archive::read_file` reference, and records what came back.
+//! It compares nothing: names and content digests are interned into small integers (a pure
+//! encoding) and Trace_ParExtract decides slot by slot.
+//!
+//!   Reset {names: n, seqtok: [..]}   the sequential reference: token id of file id i (0 = Err)
+//!   Par   {iface, arch, t, b, skip, run, req:[file ids, 0 = a name in no archive],
+//!          call: ok|err|panic|hang, names:[returned name ids, -1 = foreign], toks:[token ids, 0 = Err]}
+use std::collections::HashMap;
+use std::path::{Path, PathBuf};
+use std::sync::atomic::{AtomicBool, AtomicU64, Ordering};
+use std::time::Duration;
+use wow_mpq::single_archive_parallel::{extract_with_config, ParallelArchive, ParallelConfig};
+use wow_mpq::{Archive, ArchiveBuilder, FormatVersion};
+use wverif_common::*;
+
+struct Arch {
+    path: PathBuf,
+    /// names in listfile order (without special files)
+    files: Vec<String>,
+    /// global file id of files[0]
+    base: usize,
+}
+
+struct WorldX {
+    arch: HashMap<String, Arch>,
+    multi: Vec<(PathBuf, Option<usize>)>, // M archives: path, global id of their common.txt (None: lacks it)
+    /// (archive key, name) -> global id (1-based)
+    ids: HashMap<(String, String), usize>,
+    seqtok: Vec<u32>,
+}
+
+struct Interner {
+    m: HashMap<String, u32>,
+}
+impl Interner {
+    fn id(&mut self, data: &[u8]) -> u32 {
+        let t = tok(data) + &format!(":{}", data.len());
+        let n = self.m.len() as u32 + 1;
+        *self.m.entry(t).or_insert(n)
+    }
+}
+
+fn build_archive(path: &Path, key: &str, seed: u64) -> Vec<String> {
+    let mut b = ArchiveBuilder::new();
+    let mut names = Vec::new();
+    let (count, shift) = match key {
+        "S" => (40usize, 5u16),
+        "E" => (60, 4),
+        "L" => (1300, 3), // 4 KiB sectors: the long members are multi-sector
+        _ => (0, 5),
+    };
+    b = b.block_size(shift).version(if key == "E" { FormatVersion::V2 } else { FormatVersion::V1 });
+    for i in 0..count {
+        let mut rng = Rng::derive(seed, &format!("c09-{key}-{i}"));
+        let name = format!("Dir{:02}\\{}_{:04}.dat", i % 13, key.to_lowercase(), i);
+        let long = key == "L" && i % 97 == 5;
+        let len = if long { 9000 + rng.below(12000) as usize } else if i % 31 == 7 { 0 } else { 16 + rng.below(400) as usize };
+        // multi-sector members are compressible text (so that every sector is stored compressed)
+        let data = if long { gen_content("text", len, &mut rng) } else { gen_content(if i % 3 == 0 { "random" } else { "text" }, len, &mut rng) };
+        let comp: u8 = match i % 4 {
+            0 => 0x02,
+            1 => 0x10,
+            2 => 0,
+            _ => 0x02,
+        };
+        let comp = if long { 0x02 } else { comp };
+        let encrypt = key == "E" || (key == "L" && i % 50 == 3);
+        b = b.add_file_data_with_options(data, &name, comp, encrypt, 0);
+        names.push(name);
+    }
+    b.build(path).unwrap_or_else(|e| tool_error(&format!("building {key}: {e}")));
+    names
+}
+
+fn build_world(dir: &Path, seed: u64, intern: &mut Interner) -> WorldX {
+    let mut arch = HashMap::new();
+    let mut ids = HashMap::new();
+    let mut seqtok: Vec<u32> = Vec::new();
+    let mut seq_read = |path: &Path, key: &str, files: &[String], ids: &mut HashMap<(String, String), usize>, seqtok: &mut Vec<u32>| {
+        // THE sequential reference: one plain handle, one read_file after the other
+        let mut a = Archive::open(path).unwrap_or_else(|e| tool_error(&format!("open {key}: {e}")));
+        for f in files {
+            let t = match guarded(|| a.read_file(f)) {
+                Outcome::Done(Ok(d)) => intern.id(&d),
+                _ => 0,
+            };
+            seqtok.push(t);
+            ids.insert((key.to_string(), f.clone()), seqtok.len());
+        }
+    };
+    for key in ["S", "E", "L"] {
+        let path = dir.join(format!("{key}.mpq"));
+        let files = build_archive(&path, key, seed);
+        let base = seqtok.len() + 1;
+        seq_read(&path, key, &files, &mut ids, &mut seqtok);
+        arch.insert(key.to_string(), Arch { path, files, base });
+    }
+    let mut multi = Vec::new();
+    for i in 0..6 {
+        let path = dir.join(format!("M{i}.mpq"));
+        let key = format!("M{i}");
+        let mut b = ArchiveBuilder::new().add_file_data(format!("only in {i}").into_bytes(), &format!("unique_{i}.txt"));
+        let mut files = vec![format!("unique_{i}.txt")];
+        if i != 5 {
+            let mut rng = Rng::derive(seed, &format!("c09-M-{i}"));
+            b = b.add_file_data(rng.bytes(100 + 50 * i), "common.txt");
+            files.push("common.txt".to_string());
+        }
+        b.build(&path).unwrap_or_else(|e| tool_error(&format!("building {key}: {e}")));
+        seq_read(&path, &key, &files, &mut ids, &mut seqtok);
+        let cid = ids.get(&(key.clone(), "common.txt".to_string())).copied();
+        multi.push((path, cid));
+    }
+    WorldX { arch, multi, ids, seqtok }
+}
+
+// ---- schedule perturbation -----------------------------------------------------------------
+
+static HOOK_SEED: AtomicU64 = AtomicU64::new(1);
+#[allow(dead_code)]
+fn yield_hook(_tag: &'static str) {
+    thread_local!(static R: std::cell::Cell<u64> = const { std::cell::Cell::new(0) });
+    R.with(|r| {
+        let mut x = r.get();
+        if x == 0 {
+            x = HOOK_SEED.fetch_add(0x9E37_79B9, Ordering::Relaxed) | 1;
+        }
+        x ^= x << 13;
+        x ^= x >> 7;
+        x ^= x << 17;
+        r.set(x);
+        match x % 8 {
+            0..=3 => std::thread::yield_now(),
+            4 | 5 => {
+                let until = std::time::Instant::now() + Duration::from_micros(1 + (x >> 8) % 60);
+                while std::time::Instant::now() < until {
+                    std::hint::spin_loop();
+                }
+            }
+            6 => std::thread::sleep(Duration::from_micros(50 + (x >> 8) % 150)),
+            _ => {}
+        }
+    });
+}
+
+fn in_pool<T: Send>(t: usize, f: impl FnOnce() -> T + Send) -> T {
+    rayon::ThreadPoolBuilder::new().num_threads(t).build().unwrap_or_else(|e| tool_error(&format!("pool: {e}"))).install(f)
+}
+
+// ---- one configuration -----------------------------------------------------------------------
+
+struct Obs {
+    call: String,
+    names: Vec<i64>,
+    toks: Vec<u32>,
+}
+
+fn request(w: &WorldX, c: &Value, rng: &mut Rng) -> (Vec<String>, Vec<usize>) {
+    let a = &w.arch[gs(c, "arch")];
+    let n = gi(c, "n") as usize;
+    let off = rng.below(a.files.len() as u64) as usize;
+    let stride = if rng.chance(1, 2) { 1 } else { 7 };
+    let mut names: Vec<String> = (0..n).map(|i| a.files[(off + i * stride) % a.files.len()].clone()).collect();
+    match gs(c, "dup") {
+        "adj" if n >= 2 => names[1] = names[0].clone(),
+        "far" if n >= 2 => names[n - 1] = names[0].clone(),
+        _ => {}
+    }
+    let miss: Vec<usize> = match gs(c, "miss") {
+        "first" if n > 0 => vec![0],
+        "middle" if n > 0 => vec![n / 2],
+        "last" if n > 0 => vec![n - 1],
+        "all" => (0..n).collect(),
+        _ => vec![],
+    };
+    for i in miss {
+        names[i] = format!("missing\\file_{i}.bin");
+    }
+    let key = gs(c, "arch").to_string();
+    let ids = names.iter().map(|s| w.ids.get(&(key.clone(), s.clone())).copied().unwrap_or(0)).collect();
+    (names, ids)
+}
+
+fn name_id(w: &WorldX, key: &str, s: &str) -> i64 {
+    w.ids.get(&(key.to_string(), s.to_string())).map(|&x| x as i64).unwrap_or(if s.starts_with("missing\\") { 0 } else { -1 })
+}
+
+fn run_once(w: &WorldX, c: &Value, names: &[String], intern: &std::sync::Mutex<Interner>) -> Obs {
+    let iface = gs(c, "iface").to_string();
+    let key = gs(c, "arch").to_string();
+    let t = gi(c, "t") as usize;
+    let b = gi(c, "b") as usize;
+    let skip = gb(c, "skip");
+    let refs: Vec<&str> = names.iter().map(|s| s.as_str()).collect();
+    let tokid = |d: &[u8]| intern.lock().unwrap().id(d);
+    let out = guarded(|| -> Result<(Vec<i64>, Vec<u32>), String> {
+        match iface.as_str() {
+            "with_config" => {
+                let cfg = ParallelConfig::new().threads(t).batch_size(b).skip_errors(skip);
+                let r = extract_with_config(&w.arch[&key].path, &refs, cfg).map_err(|e| variant_name(&e))?;
+                Ok((r.iter().map(|(n, _)| name_id(w, &key, n)).collect(),
+                    r.iter().map(|(_, d)| d.as_ref().map(|d| tokid(d)).unwrap_or(0)).collect()))
+            }
+            "files_parallel" | "files_batched" | "process" | "matching" => {
+                let pa = ParallelArchive::open(&w.arch[&key].path).map_err(|e| variant_name(&e))?;
+                let r: Vec<(String, u32)> = in_pool(t, || match iface.as_str() {
+                    "files_parallel" => pa.extract_files_parallel(&refs).map(|v| v.into_iter().map(|(n, d)| (n, tokid(&d))).collect()),
+                    "files_batched" => pa.extract_files_batched(&refs, b).map(|v| v.into_iter().map(|(n, d)| (n, tokid(&d))).collect()),
+                    "process" => pa.process_files_parallel(&refs, |n, d| Ok((n.to_string(), tokid(&d)))),
+                    _ => {
+                        let set: std::collections::HashSet<&str> = refs.iter().copied().collect();
+                        pa.extract_matching_parallel(|n| set.contains(n)).map(|v| v.into_iter().map(|(n, d)| (n, tokid(&d))).collect())
+                    }
+                })
+                .map_err(|e| variant_name(&e))?;
+                Ok((r.iter().map(|(n, _)| name_id(w, &key, n)).collect(), r.iter().map(|(_, t)| *t).collect()))
+            }
+            "multi" | "multi_many" => {
+                let paths: Vec<PathBuf> = names.iter().map(PathBuf::from).collect();
+                let back = |p: &Path| -> i64 {
+                    w.multi.iter().find(|(q, _)| q == p).map(|(_, id)| id.map(|x| x as i64).unwrap_or(0)).unwrap_or(-1)
+                };
+                if iface == "multi" {
+                    let r = in_pool(t, || wow_mpq::parallel::extract_from_multiple_archives(&paths, "common.txt")).map_err(|e| variant_name(&e))?;
+                    Ok((r.iter().map(|(p, _)| back(p)).collect(), r.iter().map(|(_, d)| tokid(d)).collect()))
+                } else {
+                    let r = in_pool(t, || wow_mpq::parallel::extract_multiple_from_multiple_archives(&paths, &["common.txt"]))
+                        .map_err(|e| variant_name(&e))?;
+                    Ok((r.iter().map(|(p, _)| back(p)).collect(),
+                        r.iter().map(|(_, fs)| if fs.len() == 1 && fs[0].0 == "common.txt" { tokid(&fs[0].1) } else { 0 }).collect()))
+                }
+            }
+            other => tool_error(&format!("unknown interface {other}")),
+        }
+    });
+    match out {
+        Outcome::Done(Ok((n, t))) => Obs { call: "ok".into(), names: n, toks: t },
+        Outcome::Done(Err(_)) => Obs { call: "err".into(), names: vec![], toks: vec![] },
+        Outcome::Panic(_) => Obs { call: "panic".into(), names: vec![], toks: vec![] },
+        Outcome::Hang => Obs { call: "hang".into(), names: vec![], toks: vec![] },
+    }
+}
+
+/// TLC's JSON reader is quadratic in the length of an array: long arrays are logged as arrays of
+/// chunks of <= 64 elements (Trace_ParExtract flattens them again).
+fn chunked<T: serde::Serialize + Clone>(v: &[T]) -> Value {
+    Value::Array(v.chunks(64).map(|c| json!(c)).collect())
+}
+
+fn main() {
+    let a = args();
+    install_quiet_panic_hook();
+    let cases = read_cases(&a.cases);
+    let trace = Trace::create(&a.trace);
+    let seed = seed();
+    let scratch = Scratch::new("c09");
+    let mut interner = Interner { m: HashMap::new() };
+    let w = build_world(&scratch.path, seed, &mut interner);
+    let intern = std::sync::Mutex::new(interner);
+    let runs = if thorough() { 12 } else { 2 };
+    #[cfg(have_verif_yield)]
+    {
+        HOOK_SEED.store(seed.wrapping_mul(0x2545_F491_4F6C_DD1D) | 1, Ordering::Relaxed);
+        wow_mpq::verif::set_yield_hook(Some(yield_hook));
+    }
+    let hooked = cfg!(have_verif_yield);
+    let reset = |case: &str| json!({"ev":"Reset","case":case,"hook":hooked,"seqtok":chunked(&w.seqtok)});
+    let stop = AtomicBool::new(false);
+    std::thread::scope(|s| {
+        // CPU contention while the parallel calls run
+        for _ in 0..(if thorough() { 16 } else { 6 }) {
+            s.spawn(|| {
+                let mut x = 1u64;
+                while !stop.load(Ordering::Relaxed) {
+                    for _ in 0..20_000 {
+                        x = x.wrapping_mul(6364136223846793005).wrapping_add(1442695040888963407);
+                    }
+                    std::hint::black_box(x);
+                    if x % 7 == 0 {
+                        std::thread::yield_now();
+                    }
+                }
+            });
+        }
+        let mut since = usize::MAX;
+        for (ci, c) in cases.iter().enumerate() {
+            if gs(c, "kind") != "cfg" {
+                continue;
+            }
+            let big = gi(c, "n") > 500;
+            if since >= 60 || big {
+                trace.ev(reset(&format!("{ci}:reset")));
+                since = 0;
+            }
+            let iface = gs(c, "iface");
+            let case = format!("{ci}:{iface}:{}", gs(c, "arch"));
+            let mut rng = Rng::derive(seed, &format!("c09-case-{ci}"));
+            let (names, ids): (Vec<String>, Vec<usize>) = match iface {
+                "multi" | "multi_many" => {
+                    let n = gi(c, "n") as usize;
+                    let mut order: Vec<usize> = (0..5).collect();
+                    for i in (1..5).rev() {
+                        order.swap(i, rng.below(i as u64 + 1) as usize);
+                    }
+                    let mut sel: Vec<usize> = order.into_iter().take(n).collect();
+                    let pos = match gs(c, "miss") {
+                        "first" => Some(0),
+                        "middle" => Some(n / 2),
+                        "last" => Some(n.saturating_sub(1)),
+                        _ => None,
+                    };
+                    if let (Some(p), true) = (pos, n > 0) {
+                        sel[p] = 5; // the archive without common.txt
+                    }
+                    (sel.iter().map(|&i| w.multi[i].0.to_string_lossy().to_string()).collect(),
+                     sel.iter().map(|&i| w.multi[i].1.unwrap_or(0)).collect())
+                }
+                "matching" => {
+                    // the request is a predicate: file index (listfile order) mod n == b; the expected
+                    // answer is the sequential listing filtered by it
+                    let ar = &w.arch[gs(c, "arch")];
+                    let (m, r) = (gi(c, "n") as usize, gi(c, "b") as usize);
+                    let names: Vec<String> = ar.files.iter().enumerate().filter(|(i, _)| i % m == r % m).map(|(_, s)| s.clone()).collect();
+                    let ids = names.iter().map(|s| w.ids[&(gs(c, "arch").to_string(), s.clone())]).collect();
+                    (names, ids)
+                }
+                _ => request(&w, c, &mut rng),
+            };
+            let runs = if big { 2 } else { runs };
+            for run in 0..runs {
+                let w2 = &w;
+                let c2 = c.clone();
+                let names2 = names.clone();
+                let intern2 = &intern;
+                // watchdog without 'static: run on a scoped thread and wait with a timeout
+                let (tx, rx) = std::sync::mpsc::channel();
+                let h = s.spawn(move || {
+                    let o = run_once(w2, &c2, &names2, intern2);
+                    let _ = tx.send(o);
+                });
+                let o = match rx.recv_timeout(Duration::from_secs(300)) {
+                    Ok(o) => {
+                        let _ = h.join();
+                        o
+                    }
+                    Err(_) => Obs { call: "hang".into(), names: vec![], toks: vec![] },
+                };
+                trace.ev(json!({"ev":"Par","case":case,"iface":iface,"arch":gs(c,"arch"),"t":gi(c,"t"),"b":gi(c,"b"),
+                    "n":gi(c,"n"),"skip":gb(c,"skip"),"miss":gs(c,"miss"),"dup":gs(c,"dup"),"run":run,
+                    "req":chunked(&ids),"call":o.call,"names":chunked(&o.names),"toks":chunked(&o.toks)}));
+                since += 1;
+                if o.call == "hang" {
+                    trace.flush();
+                    stop.store(true, Ordering::Relaxed);
+                    std::process::exit(0); // a hung call cannot be joined; the trace says so
+                }
+            }
+        }
+        stop.store(true, Ordering::Relaxed);
+    });
+    let _ = w.arch.values().map(|a| a.base).sum::<usize>();
+}
